@@ -15,6 +15,26 @@ CH_NOTE = ("Trusted: CPython, CrossHair 0.0.110's models of int/bool/str primiti
            "replayed under /venv/bin/python without CrossHair before it is reported.")
 
 CLAIMS = {
+    'C12': dict(
+        engine='CH',
+        technique='solver-driven path exploration of the real GDumpParser + scanner pipeline with CrossHair/z3 '
+                  '(finite-choice inputs fixed by solver-decided forks, exhaustion certified by the solver); oracle '
+                  'from the property statement; counterexamples replayed concretely',
+        category='model_checking',
+        text='A fake runtime dump (format of girepository/gdump.c) is merged by the real GDumpParser and pushed '
+             'through MainTransformer, IntrospectablePass and GIRWriter: every property flag word 0..4095 (readable/'
+             'writable/construct/construct-only bits) on classes and interfaces, property and signal GTypes over 17 '
+             'names (fundamentals, GStrv, containers, local/foreign classes, boxed, enum, interface), default values, '
+             'signal run phase and four flags, return and 0-2 parameter types; parent chains with 0-3 ancestors each '
+             'hidden/local/foreign (nearest known ancestor), abstract/final; every subset of known/hidden/foreign '
+             'interfaces as implements and prerequisites; boxed type attaching to a struct, a union or nothing; class '
+             'and interface structures linked both ways (Class, Iface, Interface suffixes); function-pointer slots '
+             'becoming virtual methods iff the first parameter is the instance; get-type functions removed; error '
+             'quark domains on the matching enum. CrossHair "Confirmed over all paths" per partition.',
+        design_ref='DESIGN.md section 4, C12',
+        note=CH_NOTE + ' Finite-choice inputs are fixed by solver-decided binary search (vlib/sym.py) and the '
+             'pipeline then runs without opcode interception for that path. The dump producer gdump.c and the '
+             'GObject/GLib self-scan special cases are outside the claim; flag words are bounded by 2^12.'),
     'C01': dict(
         engine='CH',
         technique='solver-driven path exploration of the real scanner pipeline with CrossHair/z3 (finite-choice '
